@@ -70,7 +70,9 @@ class NixSourceCode:
         self.source_path = source_path
 
     @classmethod
-    def from_cst(cls, node: Node) -> NixSourceCode:
+    def from_cst(
+        cls, node: Node, full_source: bytes | None = None
+    ) -> NixSourceCode:
         """Build a source wrapper that keeps trivia for round-trip fidelity."""
         if node.text is None:
             raise ValueError("Missing source text")
@@ -92,7 +94,9 @@ class NixSourceCode:
 
         if contains_error:
             # Preserve the raw text so round-tripping doesn't lose information.
-            raw_text = source_bytes.decode()
+            # The root node starts at the first token, so prefer the full source
+            # to keep leading whitespace as well.
+            raw_text = (full_source or source_bytes).decode()
             return cls(
                 node=node,
                 expressions=[RawExpression(text=raw_text)],
